@@ -149,10 +149,17 @@ def run(ctx, report):
     if other:
         _bban_level(ctx, r_true, other, struct_positions(reg, other), bban_cls, None)
 
+    # ------------------------------------------------------------------ R06-mono / R06-flag (validator decision model)
+    from ..vmodel import IbanModel
+    from .. import iban_rules as IR
+    m = IbanModel(ctx, with_validate=True)
+    IR.rule_accept(m, report, "R06-flag-on", entries=[("init_bban", True), ("validate_bban", True)])
+    IR.rule_accept(m, report, "R06-flag-off", entries=[("init", False), ("validate", False)])
+    report.analysed["validator_paths"] = {k: len(v) for k, v in m.paths.items()}
+
     report.not_decided += [
         "equivalence with the national specifications beyond the probe family (every accepted position varied over its class from a base vector, plus pseudo-random fills) — "
         "a special case keyed on two or more positions at once is outside it",
-        "R06-mono / R06-flag (national validation only rejects; the flag reaches the branch) are decided by the validator analysis shared with C01/C05",
     ]
     report.trusted.append("sv/tables/national.py (reference algorithms)")
 
